@@ -5,6 +5,25 @@ From Pq Require Import Base.Bytes Thrift.Varint Thrift.Compact Proofs.CompactPro
 Import ListNotations.
 Open Scope N_scope.
 
+Section Ids.
+Variable fids : list Z.
+Hypothesis Hasc : asc 0 fids.
+Local Notation w_thrift := (CThrift.w_thrift fids).
+Local Notation t_thrift := (CThriftSpec.t_thrift fids).
+Local Notation w_top := (CThrift.w_top fids).
+Local Notation t_top := (CThriftSpec.t_top fids).
+Local Notation ser := (CThrift.ser fids).
+Local Notation to_bytes := (CThrift.to_bytes fids).
+Local Notation dom := (CThriftSpec.dom fids).
+Local Notation w_thrift_spec := (CThriftProofs.w_thrift_spec fids Hasc).
+Local Notation ser_spec := (CThriftProofs.ser_spec fids Hasc).
+Local Notation t_good := (CThriftRoundtrip.t_good fids Hasc).
+Local Notation t_eq := (CThriftRoundtrip.t_eq fids Hasc).
+Local Notation to_bytes_fits := (CThriftRoundtrip.to_bytes_fits fids).
+Local Notation t_thrift_S := (CThriftRoundtrip.t_thrift_S fids).
+Local Notation dom_fields := (CThriftRoundtrip.dom_fields fids).
+Local Notation t_dict := (CThriftRoundtrip.t_dict fids).
+
 (* ---- the round trip ------------------------------------------------------------------------------ *)
 Lemma roundtrip_dict a b c t : dom 63 (PDict a b c) = true -> t_thrift w_depth a b c = Some t ->
   exists v', from_buffer (wr t) = Some (v', []) /\ obj_eq (PDict a b c) v' = true.
@@ -30,3 +49,4 @@ Proof.
   rewrite ser_dict in E. destruct (t_thrift w_depth a b c) as [t|] eqn:Et; [|discriminate]. injection E as <-.
   apply (roundtrip_dict a b c t Hdom Et).
 Qed.
+End Ids.
